@@ -128,7 +128,7 @@ struct RealReq { outcome: Outcome, method: Option<Option<(usize, usize)>>, path:
                  headers: Vec<(Option<(usize, usize)>, Option<(usize, usize)>, usize)>, hlen_after: usize, untouched_tail: bool }
 
 fn hdr_ranges(buf: &[u8], hs: &[httparse::Header]) -> Vec<(Option<(usize, usize)>, Option<(usize, usize)>, usize)> {
-    hs.iter().map(|h| (range_in(buf, h.name.as_ptr(), h.name.len()), range_in(buf, h.value.as_ptr(), h.value.len()), h.value.len())).collect()
+    hs.iter().map(|h| { vstr(h.name); h }).map(|h| (range_in(buf, h.name.as_ptr(), h.name.len()), range_in(buf, h.value.as_ptr(), h.value.len()), h.value.len())).collect()
 }
 /// entry: 0 = Request::parse / Response::parse via ParserConfig (init headers), 1 = *_with_uninit_headers
 fn real_request(buf: &[u8], cfg: Cfg, cap: usize, entry: u8) -> RealReq {
@@ -139,8 +139,8 @@ fn real_request(buf: &[u8], cfg: Cfg, cap: usize, entry: u8) -> RealReq {
         let mut req = httparse::Request::new(&mut arr[..cap]);
         let r = noalloc(|| if cfg == Cfg::default() { req.parse(buf) } else { pc.parse_request(&mut req, buf) });
         outcome = outcome_of(r);
-        method = req.method.map(|m| range_in(buf, m.as_ptr(), m.len()));
-        path = req.path.map(|m| range_in(buf, m.as_ptr(), m.len()));
+        method = req.method.map(|m| { vstr(m); range_in(buf, m.as_ptr(), m.len()) });
+        path = req.path.map(|m| { vstr(m); range_in(buf, m.as_ptr(), m.len()) });
         version = req.version;
         headers = if matches!(outcome, Outcome::Complete(_)) { hdr_ranges(buf, req.headers) } else { vec![] };
         hlen_after = req.headers.len();
@@ -150,8 +150,8 @@ fn real_request(buf: &[u8], cfg: Cfg, cap: usize, entry: u8) -> RealReq {
         let mut req = httparse::Request::new(&mut empty);
         let r = noalloc(|| if cfg == Cfg::default() { req.parse_with_uninit_headers(buf, &mut un) } else { pc.parse_request_with_uninit_headers(&mut req, buf, &mut un) });
         outcome = outcome_of(r);
-        method = req.method.map(|m| range_in(buf, m.as_ptr(), m.len()));
-        path = req.path.map(|m| range_in(buf, m.as_ptr(), m.len()));
+        method = req.method.map(|m| { vstr(m); range_in(buf, m.as_ptr(), m.len()) });
+        path = req.path.map(|m| { vstr(m); range_in(buf, m.as_ptr(), m.len()) });
         version = req.version;
         headers = if matches!(outcome, Outcome::Complete(_)) { hdr_ranges(buf, req.headers) } else { vec![] };
         hlen_after = if matches!(outcome, Outcome::Complete(_)) { req.headers.len() } else if req.headers.len() == 0 { cap } else { usize::MAX };
@@ -171,7 +171,7 @@ fn real_response(buf: &[u8], cfg: Cfg, cap: usize, entry: u8) -> RealResp {
         let r = noalloc(|| if cfg == Cfg::default() { resp.parse(buf) } else { pc.parse_response(&mut resp, buf) });
         let outcome = outcome_of(r);
         let headers = if matches!(outcome, Outcome::Complete(_)) { hdr_ranges(buf, resp.headers) } else { vec![] };
-        RealResp { outcome, version: resp.version, code: resp.code, reason: resp.reason.map(|m| (range_in(buf, m.as_ptr(), m.len()), m.len())), headers, hlen_after: resp.headers.len() }
+        RealResp { outcome, version: resp.version, code: resp.code, reason: resp.reason.map(|m| { vstr(m); (range_in(buf, m.as_ptr(), m.len()), m.len()) }), headers, hlen_after: resp.headers.len() }
     } else {
         let mut un: Vec<MaybeUninit<httparse::Header>> = (0..cap).map(|_| MaybeUninit::uninit()).collect();
         let mut empty: [httparse::Header; 0] = [];
@@ -180,7 +180,7 @@ fn real_response(buf: &[u8], cfg: Cfg, cap: usize, entry: u8) -> RealResp {
         let outcome = outcome_of(r);
         let headers = if matches!(outcome, Outcome::Complete(_)) { hdr_ranges(buf, resp.headers) } else { vec![] };
         let hl = if matches!(outcome, Outcome::Complete(_)) { resp.headers.len() } else if resp.headers.len() == 0 { cap } else { usize::MAX };
-        RealResp { outcome, version: resp.version, code: resp.code, reason: resp.reason.map(|m| (range_in(buf, m.as_ptr(), m.len()), m.len())), headers, hlen_after: hl }
+        RealResp { outcome, version: resp.version, code: resp.code, reason: resp.reason.map(|m| { vstr(m); (range_in(buf, m.as_ptr(), m.len()), m.len()) }), headers, hlen_after: hl }
     }
 }
 
@@ -203,17 +203,17 @@ impl Ctx {
             && kind(&g.real) == kind(&f.real) && kind(&g.expected) == kind(&f.expected)).count();
         #[allow(static_mut_refs)]
         let h = unsafe { HIST.take() };
-        if same < 2 && self.findings.len() < self.max { self.findings.push(f); self.hist.push(h); }
-    }
-    fn print(&self) {
-        for (f, h) in self.findings.iter().zip(self.hist.iter()) {
+        if same < 2 && self.findings.len() < self.max {
+            // printed at once: a later crash of the process (a panic inside the crate under test) must not lose what was found
             let j = f.json();
-            match h {
+            match &h {
                 Some((hb, hc, hu)) => println!("{},\"history_hex\":\"{}\",\"history_cfg\":{},\"history_uninit\":{}}}", &j[..j.len() - 1], hex(hb), hc, hu),
                 None => println!("{}", j),
             }
+            self.findings.push(f); self.hist.push(h);
         }
     }
+    fn print(&self) {}
     fn full(&self) -> bool { self.findings.len() >= self.max }
 }
 
@@ -250,6 +250,11 @@ fn stability_probe(ctx: &mut Ctx, family: &'static str, buf: &[u8], cfgb: u8, ca
     }
 }
 
+/// a returned &str shown through its bytes (a string built by an unchecked conversion may not be UTF-8: formatting it as a str is UB)
+fn sh(s: Option<&str>) -> String { match s { None => "None".into(), Some(x) => format!("Some({:?})", String::from_utf8_lossy(x.as_bytes())) } }
+/// C05: set when a parse call handed out a &str whose bytes are not valid UTF-8
+static INVALID_STR: std::sync::atomic::AtomicBool = std::sync::atomic::AtomicBool::new(false);
+fn vstr(s: &str) { if std::str::from_utf8(s.as_bytes()).is_err() { INVALID_STR.store(true, Ordering::Relaxed); } }
 fn hdrs_match(real: &[(Option<(usize, usize)>, Option<(usize, usize)>, usize)], exp: &[SHdr]) -> bool {
     real.len() == exp.len() && real.iter().zip(exp).all(|(r, e)| r.0 == Some((e.name_lo, e.name_hi)) && (if e.val_hi > e.val_lo { r.1 == Some((e.val_lo, e.val_hi)) } else { r.2 == 0 }))
 }
@@ -272,6 +277,7 @@ fn check_request(ctx: &mut Ctx, buf: &[u8], cfgb: u8, cap: usize) {
         if matches!(exp.outcome, Outcome::Complete(_)) && real.outcome == exp.outcome && !hdrs_match(&real.headers, &exp.headers) { bad.push("headers"); }
         if !matches!(real.outcome, Outcome::Complete(_)) && real.hlen_after != cap { bad.push("headers-len-restore"); }
         if !real.untouched_tail { bad.push("untouched-slots"); }
+        if INVALID_STR.swap(false, Ordering::Relaxed) { bad.push("invalid-utf8"); }
         if !bad.is_empty() {
             let stage = if exp.version.is_some() && real.version.is_some() && !matches!(exp.outcome, Outcome::Err(Kind::NewLine)) { "headers" } else { "startline" };
             ctx.add(Finding { stage, gen: "", family: "request", oracle: bad.join("+"), entry: ename.into(), cfg: cfgb, cap, input: buf.to_vec(), real: format!("{:?}", real), expected: format!("{:?}", exp) });
@@ -302,6 +308,7 @@ fn check_response(ctx: &mut Ctx, buf: &[u8], cfgb: u8, cap: usize) {
         }
         if matches!(exp.outcome, Outcome::Complete(_)) && real.outcome == exp.outcome && !hdrs_match(&real.headers, &exp.headers) { bad.push("headers"); }
         if !matches!(real.outcome, Outcome::Complete(_)) && real.hlen_after != cap { bad.push("headers-len-restore"); }
+        if INVALID_STR.swap(false, Ordering::Relaxed) { bad.push("invalid-utf8"); }
         if !bad.is_empty() {
             let stage = if exp.reason.is_some() && real.reason.is_some() { "headers" } else { "startline" };
             ctx.add(Finding { stage, gen: "", family: "response", oracle: bad.join("+"), entry: ename.into(), cfg: cfgb, cap, input: buf.to_vec(), real: format!("{:?}", real), expected: format!("{:?}", exp) });
@@ -701,8 +708,8 @@ fn check_history_multi(ctx: &mut Ctx, resp: bool, m1: &[u8], probe: &[u8], k: us
         let complete = matches!(r2, Ok(httparse::Status::Complete(_)));
         same_fields = !complete || (used.version == fresh.version && used.code == fresh.code && used.reason == fresh.reason && used.headers.len() == fresh.headers.len()
             && used.headers.iter().zip(fresh.headers.iter()).all(|(x, y)| x.name == y.name && x.value == y.value));
-        desc_used = format!("version={:?} code={:?} reason={:?} nheaders={}", used.version, used.code, used.reason, used.headers.len());
-        desc_fresh = format!("version={:?} code={:?} reason={:?} nheaders={}", fresh.version, fresh.code, fresh.reason, fresh.headers.len());
+        desc_used = format!("version={:?} code={:?} reason={:?} nheaders={}", used.version, used.code, sh(used.reason), used.headers.len());
+        desc_fresh = format!("version={:?} code={:?} reason={:?} nheaders={}", fresh.version, fresh.code, sh(fresh.reason), fresh.headers.len());
     } else {
         let mut used = httparse::Request::new(&mut arr1[..]);
         let _ = pb.parse_request(&mut used, m1);
@@ -714,8 +721,8 @@ fn check_history_multi(ctx: &mut Ctx, resp: bool, m1: &[u8], probe: &[u8], k: us
         let complete = matches!(r2, Ok(httparse::Status::Complete(_)));
         same_fields = !complete || (used.method == fresh.method && used.path == fresh.path && used.version == fresh.version && used.headers.len() == fresh.headers.len()
             && used.headers.iter().zip(fresh.headers.iter()).all(|(x, y)| x.name == y.name && x.value == y.value));
-        desc_used = format!("method={:?} path={:?} version={:?} nheaders={}", used.method, used.path, used.version, used.headers.len());
-        desc_fresh = format!("method={:?} path={:?} version={:?} nheaders={}", fresh.method, fresh.path, fresh.version, fresh.headers.len());
+        desc_used = format!("method={:?} path={:?} version={:?} nheaders={}", sh(used.method), sh(used.path), used.version, used.headers.len());
+        desc_fresh = format!("method={:?} path={:?} version={:?} nheaders={}", sh(fresh.method), sh(fresh.path), fresh.version, fresh.headers.len());
     }
     if outcome_of(r1) != outcome_of(r2) || !same_fields {
         unsafe { HIST = Some((m1.to_vec(), k as u8, 2)); }
@@ -745,8 +752,8 @@ fn check_history_req(ctx: &mut Ctx, a: &[u8], cfga: u8, b: &[u8], cfgb: u8, cap:
     if !same_status || !same_fields {
         unsafe { HIST = Some((a.to_vec(), cfga, 0)); }
         ctx.add(Finding { stage: "any", gen: "", family: "request", oracle: "history".into(), entry: "ParserConfig::parse_request (reused value)".into(), cfg: cfgb, cap,
-            input: b.to_vec(), real: format!("after an earlier parse of {:?} (cfg {}): {:?} method={:?} path={:?} version={:?} nheaders={}", String::from_utf8_lossy(a), cfga, r1, used.method, used.path, used.version, used.headers.len()),
-            expected: format!("fresh value: {:?} method={:?} path={:?} version={:?} nheaders={}", r2, fresh.method, fresh.path, fresh.version, fresh.headers.len()) });
+            input: b.to_vec(), real: format!("after an earlier parse of {:?} (cfg {}): {:?} method={:?} path={:?} version={:?} nheaders={}", String::from_utf8_lossy(a), cfga, r1, sh(used.method), sh(used.path), used.version, used.headers.len()),
+            expected: format!("fresh value: {:?} method={:?} path={:?} version={:?} nheaders={}", r2, sh(fresh.method), sh(fresh.path), fresh.version, fresh.headers.len()) });
     }
 }
 fn check_history_resp(ctx: &mut Ctx, a: &[u8], cfga: u8, b: &[u8], cfgb: u8, cap: usize) {
@@ -768,8 +775,8 @@ fn check_history_resp(ctx: &mut Ctx, a: &[u8], cfga: u8, b: &[u8], cfgb: u8, cap
     if !same_status || !same_fields {
         unsafe { HIST = Some((a.to_vec(), cfga, 0)); }
         ctx.add(Finding { stage: "any", gen: "", family: "response", oracle: "history".into(), entry: "ParserConfig::parse_response (reused value)".into(), cfg: cfgb, cap,
-            input: b.to_vec(), real: format!("after an earlier parse of {:?} (cfg {}): {:?} version={:?} code={:?} reason={:?} nheaders={}", String::from_utf8_lossy(a), cfga, r1, used.version, used.code, used.reason, used.headers.len()),
-            expected: format!("fresh value: {:?} version={:?} code={:?} reason={:?} nheaders={}", r2, fresh.version, fresh.code, fresh.reason, fresh.headers.len()) });
+            input: b.to_vec(), real: format!("after an earlier parse of {:?} (cfg {}): {:?} version={:?} code={:?} reason={:?} nheaders={}", String::from_utf8_lossy(a), cfga, r1, used.version, used.code, sh(used.reason), used.headers.len()),
+            expected: format!("fresh value: {:?} version={:?} code={:?} reason={:?} nheaders={}", r2, fresh.version, fresh.code, sh(fresh.reason), fresh.headers.len()) });
     }
 }
 /// C18 through the *_with_uninit_headers entry points: the earlier parse leaves `headers` pointing into its own array
@@ -794,8 +801,8 @@ fn check_history_cross(ctx: &mut Ctx, a: &[u8], cfga: u8, b: &[u8], cfgb: u8, ca
         let _ = pa.parse_request_with_uninit_headers(&mut y, a, &mut u1);
         let r2 = pb.parse_request_with_uninit_headers(&mut y, b, &mut u2[..cap_now]);
         differ = outcome_of(r1) != outcome_of(r2) || x.method != y.method || x.path != y.path || x.version != y.version;
-        real = format!("parse_request after {:?}: {:?} method={:?} path={:?} version={:?}", String::from_utf8_lossy(a), r1, x.method, x.path, x.version);
-        expected = format!("parse_request_with_uninit_headers after the same call: {:?} method={:?} path={:?} version={:?}", r2, y.method, y.path, y.version);
+        real = format!("parse_request after {:?}: {:?} method={:?} path={:?} version={:?}", String::from_utf8_lossy(a), r1, sh(x.method), sh(x.path), x.version);
+        expected = format!("parse_request_with_uninit_headers after the same call: {:?} method={:?} path={:?} version={:?}", r2, sh(y.method), sh(y.path), y.version);
     } else {
         let mut x = httparse::Response::new(&mut arr[..]);
         let _ = pa.parse_response(&mut x, a);
@@ -805,8 +812,8 @@ fn check_history_cross(ctx: &mut Ctx, a: &[u8], cfga: u8, b: &[u8], cfgb: u8, ca
         let _ = pa.parse_response_with_uninit_headers(&mut y, a, &mut u1);
         let r2 = pb.parse_response_with_uninit_headers(&mut y, b, &mut u2[..cap_now]);
         differ = outcome_of(r1) != outcome_of(r2) || x.version != y.version || x.code != y.code || x.reason != y.reason;
-        real = format!("parse_response after {:?}: {:?} version={:?} code={:?} reason={:?}", String::from_utf8_lossy(a), r1, x.version, x.code, x.reason);
-        expected = format!("parse_response_with_uninit_headers after the same call: {:?} version={:?} code={:?} reason={:?}", r2, y.version, y.code, y.reason);
+        real = format!("parse_response after {:?}: {:?} version={:?} code={:?} reason={:?}", String::from_utf8_lossy(a), r1, x.version, x.code, sh(x.reason));
+        expected = format!("parse_response_with_uninit_headers after the same call: {:?} version={:?} code={:?} reason={:?}", r2, y.version, y.code, sh(y.reason));
     }
     if differ {
         unsafe { HIST = Some((a.to_vec(), cfga, 3)); }
@@ -832,8 +839,8 @@ fn check_history_uninit(ctx: &mut Ctx, a: &[u8], cfga: u8, b: &[u8], cfgb: u8, c
         let complete = matches!(r2, Ok(httparse::Status::Complete(_)));
         differ = outcome_of(r1) != outcome_of(r2) || (complete && !(used.method == fresh.method && used.path == fresh.path && used.version == fresh.version
             && used.headers.len() == fresh.headers.len() && used.headers.iter().zip(fresh.headers.iter()).all(|(x, y)| x.name == y.name && x.value == y.value)));
-        real = format!("after an earlier parse of {:?} (cfg {}): {:?} method={:?} path={:?} version={:?} nheaders={}", String::from_utf8_lossy(a), cfga, r1, used.method, used.path, used.version, used.headers.len());
-        expected = format!("fresh value: {:?} method={:?} path={:?} version={:?} nheaders={}", r2, fresh.method, fresh.path, fresh.version, fresh.headers.len());
+        real = format!("after an earlier parse of {:?} (cfg {}): {:?} method={:?} path={:?} version={:?} nheaders={}", String::from_utf8_lossy(a), cfga, r1, sh(used.method), sh(used.path), used.version, used.headers.len());
+        expected = format!("fresh value: {:?} method={:?} path={:?} version={:?} nheaders={}", r2, sh(fresh.method), sh(fresh.path), fresh.version, fresh.headers.len());
     } else {
         let mut used = httparse::Response::new(&mut e1);
         let _ = pa.parse_response_with_uninit_headers(&mut used, a, &mut u1);
@@ -843,8 +850,8 @@ fn check_history_uninit(ctx: &mut Ctx, a: &[u8], cfga: u8, b: &[u8], cfgb: u8, c
         let complete = matches!(r2, Ok(httparse::Status::Complete(_)));
         differ = outcome_of(r1) != outcome_of(r2) || (complete && !(used.version == fresh.version && used.code == fresh.code && used.reason == fresh.reason
             && used.headers.len() == fresh.headers.len() && used.headers.iter().zip(fresh.headers.iter()).all(|(x, y)| x.name == y.name && x.value == y.value)));
-        real = format!("after an earlier parse of {:?} (cfg {}): {:?} version={:?} code={:?} reason={:?} nheaders={}", String::from_utf8_lossy(a), cfga, r1, used.version, used.code, used.reason, used.headers.len());
-        expected = format!("fresh value: {:?} version={:?} code={:?} reason={:?} nheaders={}", r2, fresh.version, fresh.code, fresh.reason, fresh.headers.len());
+        real = format!("after an earlier parse of {:?} (cfg {}): {:?} version={:?} code={:?} reason={:?} nheaders={}", String::from_utf8_lossy(a), cfga, r1, used.version, used.code, sh(used.reason), used.headers.len());
+        expected = format!("fresh value: {:?} version={:?} code={:?} reason={:?} nheaders={}", r2, fresh.version, fresh.code, sh(fresh.reason), fresh.headers.len());
     }
     if differ {
         unsafe { HIST = Some((a.to_vec(), cfga, 1)); }
